@@ -52,15 +52,16 @@ def strip_comments(src):
 
 def theorems_in(path):
     src = strip_comments(open(path).read())
-    ns = None
+    ns = []
     out = []
     for m in re.finditer(r"^(namespace\s+(\S+)|end\s+(\S+)|theorem\s+(\S+))", src, re.M):
         if m.group(2):
-            ns = m.group(2)
+            ns.append(m.group(2))
         elif m.group(3):
-            ns = None
+            if ns and ns[-1] == m.group(3):
+                ns.pop()
         elif m.group(4):
-            out.append((ns + "." if ns else "") + m.group(4))
+            out.append(".".join(ns + [m.group(4)]))
     return out
 
 
